@@ -10,7 +10,7 @@ Import ListNotations.
 Local Open Scope nat_scope.
 
 Definition cfg_gen : cfg :=
-  cfg_flags gen_catch_emits_pop (gen_break_pops_handlers && gen_continue_pops_handlers)
+  cfg_flags gen_catch_emits_pop gen_break_pops_mode
             gen_return_in_try_uses_jump_finally gen_unwind_he_mode
             gen_throw_sets_he gen_vmfail_sets_he gen_nativefail_sets_he.
 (* the theorems hold for today's emitters and an unwind_stack that DERIVES handling_exception from the handler,
@@ -145,6 +145,9 @@ Theorem C08_break_in_try_refuted_old : refutes cfg_old_break wit_break_in_try No
 Proof. exact break_in_try_refuted_old. Qed.
 (* an unwind_stack that no longer derives the flag needs it set at EVERY raise site (three: throw, VM failure, native
    failure); with the native site left out a native failure under a finally-only handler is dropped *)
+(* emit_exc_handler_pops must pop EVERY handler of the try blocks a break/continue leaves *)
+Theorem C08_break_pops_all_refuted_one : refutes cfg_break_pops_one wit_break_two_tries None.
+Proof. exact break_pops_all_refuted_one. Qed.
 Theorem C08_native_site_needs_flag_refuted : refutes cfg_flag_at_sites_but_native wit_native_finally None.
 Proof. exact native_site_needs_flag_refuted. Qed.
 
@@ -181,6 +184,7 @@ Print Assumptions C08_abrupt_exit_from_finally_refuted.
 Print Assumptions C08_pending_return_survives_throw_refuted.
 Print Assumptions C08_catch_pops_outer_refuted_old.
 Print Assumptions C08_break_in_try_refuted_old.
+Print Assumptions C08_break_pops_all_refuted_one.
 Print Assumptions C08_native_site_needs_flag_refuted.
 Print Assumptions C08_handler_static_dynamic.
 
